@@ -495,7 +495,11 @@ class Fxp():
             if self.scaled:
                 self.set_val((_old_val / 2**_old_n_frac) * self.scale + self.bias)
             else:
-                self.set_val(_old_val * 2**(self.n_frac - _old_n_frac), raw=True)
+                _shift = self.n_frac - _old_n_frac
+                if _shift > 0 and _old_val.dtype != object and int(np.max(np.abs(_old_val))).bit_length() + _shift >= 63:
+                    # the shifted raw values do not fit in 64 bits: use python integers
+                    _old_val = _old_val.astype(object)
+                self.set_val(_old_val * 2**_shift, raw=True)
         else:
             self.set_val(_old_val, raw=True)
 
